@@ -112,9 +112,13 @@ class Resampling(Operator):
 
         out_ctx = nullcontext() if out is None else writable_array(out)
         with out_ctx as out_arr:
-            return point_collocation(
+            result = point_collocation(
                 interpolator, self.range.meshgrid, out=out_arr
             )
+
+        # For in-place evaluation the data was written to `out` through
+        # `out_arr`; only `out` itself (or nothing) may be returned
+        return result if out is None else out
 
     @property
     def inverse(self):
